@@ -556,6 +556,7 @@ def mem_sizes(ctx):
     return sorted(x for x in s if 0 <= x <= 4096)
 
 
+MEM_LARGE = [4097, 8191, 8192, 16384, 32767, 32768, 32769, 65536, 100000, 1048576]
 MEM_BUILDS = [("scalar", [], 0, 0), ("sse2", ["-DQENTEM_SSE2=1", "-msse2"], 1, 4), ("avx2", ["-DQENTEM_AVX2=1", "-mavx2"], 1, 5)]
 
 
@@ -591,6 +592,23 @@ def run_mem(ctx, drv):
                 ctx.fail("oracle:memory-not-plain-copy", "Memory::%s differs from a plain copy/fill in the %s build: %s -> %s" % (lines[i].split(" ")[1], name, lines[i], impl[i]),
                          {"line": lines[i], "build": name, "impl_output": impl[i], "list_spec": spec[j]})
         ctx.cov["streams"]["memory(%s)" % name]["alignments_per_case"] = "copy 32x32, zero 32"
+        # large blocks (the containers reach them: a 40000-unit append): sparse lengths x 5x5 misalignments.
+        # Oracle = the plain copy / fill (proved equal to the block model for every size); the block model itself
+        # is run only up to 8192 bytes (it is quadratic on lists).
+        llines = ["seqmem %sL %d %d %d %d" % (w, simd, shift, n, seed) for w in ("copy", "zero") for n in MEM_LARGE]
+        limpl, lfaults = core.run_lines_parallel(exe, llines, jobs=12)
+        for i, k, err in lfaults:
+            ctx.fail("fault:" + k, "sanitizer fault / crash (%s) in Memory::%s on a large block, %s build, %s" % (k, llines[i].split(" ")[1][:-1], name, llines[i]), {"line": llines[i], "build": name, "stderr": err})
+        lkeep = [i for i in range(len(llines)) if not limpl[i].startswith("FAULT")]
+        lspec, _ = core.run_lines_parallel(drv, [llines[i].replace("seqmem ", "seqmem spec-", 1) for i in lkeep], jobs=12, env=None)
+        for j, i in enumerate(lkeep):
+            if limpl[i] != lspec[j]:
+                ctx.fail("oracle:memory-not-plain-copy", "Memory::%s differs from a plain copy/fill on a large block in the %s build: %s -> %s" % (llines[i].split(" ")[1][:-1], name, llines[i], limpl[i]),
+                         {"line": llines[i], "build": name, "impl_output": limpl[i], "list_spec": lspec[j]})
+        small = [i for i in lkeep if int(llines[i].split(" ")[4]) <= 8192]
+        lmodel, _ = core.run_lines_parallel(drv, [llines[i] for i in small], jobs=12, env=None)
+        ctx.correspond("memory-large(%s)" % name, [llines[i] for i in small], [limpl[i] for i in small], lmodel)
+        ctx.count("memory-large(%s):plain-copy-oracle" % name, len(lkeep), len(lkeep))
 
 
 # ------------------------------------------------------------------------------------------------
@@ -673,12 +691,38 @@ def build_driver_all_areas(ctx):
     return ctx.build_driver()
 
 
+def doubled(op, reg, times):
+    return ";".join(["%s:%d:%d" % (op, reg, reg)] * times)
+
+
+def large_programs():
+    """Programs whose copies are far above the 4 KiB of the memory sweep (a 40 000-unit append behind "abc"):
+    big content is built by self-append doubling (short lines), then appended / assigned / copied at starts
+    that are not vector-aligned.  Run in the scalar, SSE2 and AVX2 builds of the harness."""
+    ten = "101,102,103,104,105,106,107,108,109,110"
+    out = []
+    for w, n in (("1", 12), ("2", 11), ("4", 11)):
+        out.append("seq-string %s ctoru:1:%s;%s;ctoru:0:97,98,99;appc:0:1;asgc:2:0;appch:2:65;plus:1:2:0;reset:1;appu:2:2:%s;asgm:0:2;reset:0" % (w, ten, doubled("appc", 1, n), ten))
+        out.append("seq-stream %s x appu:0:1:%s;%s;appu:0:0:97,98,99;apps:0:1;ctorc:2:0;pushch:0:2:66;asgc:1:2;reset:2;shls:0:1;getstr:0;reset:1" % (w, ten, doubled("apps", 1, n)))
+    out.append("seq-array i push:1:5;push:1:6;push:1:7;%s;push:0:1;ctorc:2:1;appm:0:1;expect:2:5;push:2:9;compress:2;reset:0;reserve:1:9000:1;resizei:2:40000;reset:2;ctorn:0:20000:1" % doubled("appc", 1, 13))
+    out.append("seq-array p push:1:5;push:1:6;push:1:7;%s;push:0:1;appm:0:1;reset:0;reserve:1:9000:1;resizei:1:20000" % doubled("appc", 1, 12))
+    return out
+
+
 def run_area(ctx):
     ctx.prove(["Qentem.Props.C14"], THEOREMS)
     drv = build_driver_all_areas(ctx)
-    h_x = ctx.build_harness("seq_harness.cpp", tag="san_exact")
-    h_s = ctx.build_harness("seq_harness.cpp", flags=[f for f in core.SAN_FLAGS if not f.startswith("-D" + core.GUARD)], tag="san_std")
-    if not (drv and h_x and h_s):
+    # all harness builds at once (g++ runs outside the GIL)
+    from concurrent.futures import ThreadPoolExecutor
+    no_hook = [f for f in core.SAN_FLAGS if not f.startswith("-D" + core.GUARD)]
+    have_avx2 = "avx2" in open("/proc/cpuinfo").read()
+    with ThreadPoolExecutor(max_workers=4) as ex_:
+        f_x = ex_.submit(ctx.build_harness, "seq_harness.cpp", None, "san_exact")
+        f_s = ex_.submit(ctx.build_harness, "seq_harness.cpp", no_hook, "san_std")
+        f_sse = ex_.submit(ctx.build_harness, "seq_harness.cpp", core.SAN_FLAGS + ["-DQENTEM_SSE2=1", "-msse2"], "san_sse2")
+        f_avx = ex_.submit(ctx.build_harness, "seq_harness.cpp", core.SAN_FLAGS + ["-DQENTEM_AVX2=1", "-mavx2"], "san_avx2") if have_avx2 else None
+        h_x, h_s, h_sse, h_avx = f_x.result(), f_s.result(), f_sse.result(), (f_avx.result() if f_avx else None)
+    if not (drv and h_x and h_s and h_sse):
         return
     rng = ctx.rng
     flags = {"array_self_appc": True, "stream_self_shl": True, "string_stepback0": True}   # all repaired (5f6da32, c1884a5, 6bc11c7)
@@ -695,14 +739,19 @@ def run_area(ctx):
     # ---- Array<int>, Array<String<char>> --------------------------------------------------------
     alpha = array_alphabet(flags)
     ex = exhaustive(alpha, 3 if not T else 4, ["push:0:1;push:0:2;push:1:3"]) + exhaustive(alpha, 2 if not T else 3, [""])
-    for kind in ("i", "s"):
+    # kinds: int; String<char> (owning); Plain = trivially copyable struct whose value-initialised state is not
+    # all-zero bytes (default member initialisers) — every initialising operation must construct, not zero-fill
+    init_ops = ["ctorn:0:3:1;push:0:9;resizei:0:6;reserve:1:4:1;appc:0:1;resizei:0:2;resizei:0:5",
+                "reserve:0:5:1;push:0:1;ctorc:1:0;resizei:1:9;ctorn:2:1:1;appm:2:1;compress:2;resizei:2:12",
+                "push:0:4;resizei:0:1;resizei:0:3;asgc:1:0;reserve:0:2:1;appc:1:0;ctorn:0:7:1;pushi:1:2" if flags["array_alias_item"] else "push:0:4;resizei:0:3"]
+    for kind in ("i", "s", "p"):
         progs = list(ex) if kind == "i" or T else ex[::3]
         if kind == "s":
             progs = [p for p in progs if "appm:0:0" not in p]
-        for _ in range(3000 if not T else 40000):
+        for _ in range((3000 if kind != "p" else 1200) if not T else 40000):
             progs.append(gen_array(rng, rng.choice([3, 8, 20, 40] if not T else [8, 20, 60, 120]), kind, flags))
-        lines = [l for l in of_kind("seq-array") if l.split(" ")[1] == kind] + ["seq-array %s %s" % (kind, p) for p in progs]
-        run_stream_of_programs(ctx, "array<%s>" % ("int" if kind == "i" else "String<char>"), "array", h_x, drv, lines)
+        lines = [l for l in of_kind("seq-array") if l.split(" ")[1] == kind] + ["seq-array %s %s" % (kind, p) for p in init_ops + progs]
+        run_stream_of_programs(ctx, "array<%s>" % {"i": "int", "s": "String<char>", "p": "Plain{x=7,y=0x5A5A}"}[kind], "array", h_x, drv, lines)
     # ---- String ---------------------------------------------------------------------------------
     alpha = string_alphabet(flags)
     for w in ("1", "2", "4"):
@@ -733,6 +782,14 @@ def run_area(ctx):
             progs.append(gen_view(rng, rng.choice([3, 8, 20]), w))
         lines = [l for l in of_kind("seq-view") if l.split(" ")[1] == w] + ["seq-view %s %s" % (w, p) for p in progs]
         run_stream_of_programs(ctx, "view<%s>" % w, "view", h_x, drv, lines)
+    # ---- large copies inside the containers, scalar / SSE2 / AVX2 builds ---------------------------
+    big = large_programs()
+    for bname, exe in (("scalar", h_x), ("sse2", h_sse), ("avx2", h_avx)):
+        if not exe:
+            continue
+        for kind in ("array", "string", "stream"):
+            lines = [l for l in big if l.startswith("seq-" + kind + " ")]
+            run_stream_of_programs(ctx, "large-%s(%s)" % (kind, bname), kind, exe, drv, lines, jobs=1)
     # ---- StringUtils::TrimLeft / TrimRight / Trim called directly --------------------------------
     run_trim_direct(ctx, h_x, drv)
     # ---- Memory::Copy / SetToZero ---------------------------------------------------------------
